@@ -961,26 +961,27 @@ fn longest_char_sequence(literal: &[u8], ch: u8) -> usize {
 }
 
 fn shortest_unused_sequence(literal: &[u8], f: u8) -> usize {
-    let mut used = 1;
+    // Run lengths are unbounded, so they are kept in a set rather than in the
+    // bits of an integer (which overflowed for runs of 31 or more).
+    let mut used = std::collections::BTreeSet::new();
     let mut current = 0;
     for c in literal {
         if *c == f {
             current += 1;
         } else {
             if current > 0 {
-                used |= 1 << current;
+                used.insert(current);
             }
             current = 0;
         }
     }
 
     if current > 0 {
-        used |= 1 << current;
+        used.insert(current);
     }
 
-    let mut i = 0;
-    while used & 1 != 0 {
-        used >>= 1;
+    let mut i = 1;
+    while used.contains(&i) {
         i += 1;
     }
     i
